@@ -87,4 +87,7 @@ def bitflags(b, alias, name, opts):
     b.emit("#[derive(Clone, Copy)]\npub struct %s { pub bits: %s }\nimpl %s {\n" % (name, repr, name), "unit")
     for (cn, cv, ln) in consts:
         b.segs.append(Seg("    pub const %s: %s = %s { bits: %s };\n" % (cn, name, name, cv), "repo", file=rel, line=ln))
+    # union of the named flags (what bitflags calls `all()`), from the same real constant expressions
+    b.segs.append(Seg("    pub const VX_ALL: %s = %s { bits: %s };\n" % (name, name, " | ".join("(%s)" % cv for (cn, cv, ln) in consts)),
+                      "repo", file=rel, line=consts[0][2] if consts else None))
     b.emit("}\n", "unit")
